@@ -5,6 +5,7 @@ import (
 	"flag"
 	"fmt"
 	"os"
+	"os/exec"
 	"path/filepath"
 	"runtime/pprof"
 	"strings"
@@ -148,6 +149,10 @@ func (e *Exec) finishPath(o Outcome) {
 		return
 	}
 	pr := PathResult{Label: o.pinfo.Kind + ": " + o.pinfo.Msg, Site: o.pinfo.where(), Covers: o.st.covers}
+	if e.cfg.OnlyLabel != nil && !e.cfg.OnlyLabel.MatchString(pr.Label) {
+		e.stats.PathsForeign++
+		return
+	}
 	for _, cv := range o.st.covers {
 		if strings.HasPrefix(cv, "known:") {
 			pr.Known = strings.TrimPrefix(cv, "known:")
@@ -235,6 +240,7 @@ func cmdRun(args []string) {
 	prefixS := fs.String("prefix", "", "comma separated pre-assigned vfChoice values")
 	thorough := fs.Bool("thorough", false, "thorough tier")
 	prof := fs.String("prof", "", "cpu profile")
+	hpkg := fs.String("hpkg", "", "harness package dir relative to /repo (uses /verif/harness/<dir>, hooks and generators like check does)")
 	fs.Parse(args)
 	if *prof != "" {
 		f, _ := os.Create(*prof)
@@ -258,6 +264,28 @@ func cmdRun(args []string) {
 		if tmpl, err := os.ReadFile("/verif/harness/vf_rt.go.tmpl"); err == nil && pkgName != "" {
 			overlay[filepath.Join(pdir, "zz_vf_rt.go")] = []byte(strings.Replace(string(tmpl), "PKGNAME", pkgName, 1))
 		}
+	}
+	if *hpkg != "" {
+		ov, err := buildOverlay([]string{*hpkg}, nil)
+		if err != nil {
+			fmt.Println("overlay:", err)
+			os.Exit(2)
+		}
+		var idx Index
+		readJSON(filepath.Join(verifRoot, "harness", "index.json"), &idx)
+		for _, h := range idx.Harnesses {
+			if h.Pkg != *hpkg {
+				continue
+			}
+			for _, g := range h.Gen {
+				out, err := exec.Command(filepath.Join(verifRoot, "bin", g.Tool)).Output()
+				if err == nil {
+					ov[filepath.Join(repoRoot, h.Pkg, "zz_"+g.File)] = out
+				}
+			}
+		}
+		overlay = ov
+		*pkg = "./" + *hpkg
 	}
 	t0 := time.Now()
 	prog, pkgs, err := loadProgram(*dir, overlay, "verif", *pkg)
